@@ -20,6 +20,8 @@ pub enum Op {
     Taproot(usize, u8, Pv, Option<Vec<u8>>, Option<([u8; 32], u32)>),
     Key(usize, u8, Pv),
     ScriptSpend(usize, u8, Pv, [u8; 32]),
+    /// taproot_script_spend_signature_hash with a `ScriptPath::with_defaults(script)`: the library computes the leaf hash (TapLeafHash::from_script)
+    ScriptPathSpend(usize, u8, Pv, Vec<u8>),
     Wit(usize, Vec<Vec<u8>>),
 }
 
@@ -53,6 +55,7 @@ pub fn show_op(o: &Op) -> String {
             match l { None => "-:0".to_string(), Some((h, pos)) => format!("{}:{}", hex(h), pos) }),
         Op::Key(i, t, p) => format!("K:{}:{}:{}", i, t, show_pv(p)),
         Op::ScriptSpend(i, t, p, h) => format!("P:{}:{}:{}:{}", i, t, show_pv(p), hex(h)),
+        Op::ScriptPathSpend(i, t, p, sc) => format!("Q:{}:{}:{}:{}", i, t, show_pv(p), hx(sc)),
         Op::Wit(i, st) => format!("W:{}:{}", i, hex(&serialize(st))),
     }
 }
@@ -71,6 +74,7 @@ pub fn parse_op(s: &str, spent: &[TxOut]) -> Option<Op> {
         ("L", 4) => Some(Op::Legacy(f[1].parse().ok()?, f[2].parse().ok()?, ux(f[3])?)),
         ("S", 5) => Some(Op::Segwit(f[1].parse().ok()?, f[2].parse().ok()?, ux(f[3])?, deserialize(&unhex(f[4])?).ok()?)),
         ("K", 5) => Some(Op::Key(f[1].parse().ok()?, f[2].parse().ok()?, parse_pv(f[3], f[4], spent)?)),
+        ("Q", 6) => Some(Op::ScriptPathSpend(f[1].parse().ok()?, f[2].parse().ok()?, parse_pv(f[3], f[4], spent)?, ux(f[5])?)),
         ("P", 6) => Some(Op::ScriptSpend(f[1].parse().ok()?, f[2].parse().ok()?, parse_pv(f[3], f[4], spent)?, <[u8; 32]>::try_from(&unhex(f[5])?[..]).ok()?)),
         ("T", 8) => {
             let annex = if f[5] == "-" { None } else { Some(unhex(f[5].strip_prefix('x')?)?) };
@@ -105,16 +109,18 @@ pub fn query<R: std::ops::Deref<Target = Transaction>>(c: &mut SighashCache<R>, 
             }
             None => "harnesserr ty".into() },
         Op::Key(i, t, p) => match schnorr(*t) { Some(t) => with_pv(p, spent, |pv| tap_res(c.taproot_key_spend_signature_hash(*i, pv, t, genesis))), None => "harnesserr ty".into() },
+        Op::ScriptPathSpend(i, t, p, sc) => match schnorr(*t) { Some(t) => { let script = Script::from(sc.clone());
+            with_pv(p, spent, |pv| tap_res(c.taproot_script_spend_signature_hash(*i, pv, elements::sighash::ScriptPath::with_defaults(&script), t, genesis))) } None => "harnesserr ty".into() },
         Op::ScriptSpend(i, t, p, h) => match schnorr(*t) { Some(t) => with_pv(p, spent, |pv| tap_res(c.taproot_script_spend_signature_hash(*i, pv, TapLeafHash::from_byte_array(*h), t, genesis))), None => "harnesserr ty".into() },
         Op::Wit(..) => "harnesserr wit".into(),
     }));
     r.unwrap_or_else(|_| "panic".into())
 }
 fn op_pv(op: &Op) -> Option<(usize, u8, &Pv)> {
-    match op { Op::Taproot(i, t, p, _, _) => Some((*i, *t, p)), Op::Key(i, t, p) => Some((*i, *t, p)), Op::ScriptSpend(i, t, p, _) => Some((*i, *t, p)), _ => None }
+    match op { Op::Taproot(i, t, p, _, _) => Some((*i, *t, p)), Op::Key(i, t, p) => Some((*i, *t, p)), Op::ScriptPathSpend(i, t, p, _) => Some((*i, *t, p)), Op::ScriptSpend(i, t, p, _) => Some((*i, *t, p)), _ => None }
 }
 fn with_one(op: &Op, j: usize) -> Op {
-    match op.clone() { Op::Taproot(i, t, _, a, l) => Op::Taproot(i, t, Pv::One(j), a, l), Op::Key(i, t, _) => Op::Key(i, t, Pv::One(j)), Op::ScriptSpend(i, t, _, h) => Op::ScriptSpend(i, t, Pv::One(j), h), o => o }
+    match op.clone() { Op::Taproot(i, t, _, a, l) => Op::Taproot(i, t, Pv::One(j), a, l), Op::Key(i, t, _) => Op::Key(i, t, Pv::One(j)), Op::ScriptPathSpend(i, t, _, sc) => Op::ScriptPathSpend(i, t, Pv::One(j), sc), Op::ScriptSpend(i, t, _, h) => Op::ScriptSpend(i, t, Pv::One(j), h), o => o }
 }
 
 
@@ -206,8 +212,28 @@ pub fn rop(rng: &mut ChaCha20Rng, nin: usize, nout: usize, spent: &[TxOut], tags
                     let leaf = if rng.gen_range(0..2) == 0 { tags.push("scriptpath".into()); Some((r32(rng), pk!(rng, [0xffff_ffffu32, 0, 7, rng.gen()]))) } else { None };
                     Op::Taproot(idx, t, pv, rannex(rng, tags), leaf) }
         13 | 14 => { let t = *pick(rng, &SCHNORR_TYPES); tags.push(format!("K:{:02x}", t)); Op::Key(idx, t, rpv(rng, idx, spent, tags)) }
-        15 | 16 => { let t = *pick(rng, &SCHNORR_TYPES); tags.push(format!("P:{:02x}", t)); Op::ScriptSpend(idx, t, rpv(rng, idx, spent, tags), r32(rng)) }
+        15 => { let t = *pick(rng, &SCHNORR_TYPES); tags.push(format!("Q:{:02x}", t)); let sc = rleafscript(rng, false, tags); Op::ScriptPathSpend(idx, t, rpv(rng, idx, spent, tags), sc) }
+        16 => { let t = *pick(rng, &SCHNORR_TYPES); tags.push(format!("P:{:02x}", t)); Op::ScriptSpend(idx, t, rpv(rng, idx, spent, tags), r32(rng)) }
         _ => { tags.push("W".into()); Op::Wit(if rng.gen_range(0..8) == 0 { nin + 1 } else if nin == 0 { 0 } else { rng.gen_range(0..nin) }, rstack(rng, false)) }
+    }
+}
+/// a leaf script whose length sits on a compact-size boundary (the library computes the leaf hash from it)
+pub fn rleafscript(rng: &mut ChaCha20Rng, big: bool, tags: &mut Vec<String>) -> Vec<u8> {
+    let n = if big && rng.gen_range(0..4) == 0 { pk!(rng, [65535usize, 65536]) } else { pk!(rng, [0usize, 1, 34, 252, 253, 254, 255, 256, 300]) };
+    tags.push(format!("leafscript:{}", match n { 0..=252 => "<253", 253..=65535 => "253..65535", _ => ">=65536" }));
+    rbytes(rng, n)
+}
+/// issuance range proofs on inputs that carry NO issuance (the witness fields exist independently of the issuance)
+pub fn stray_rangeproofs(rng: &mut ChaCha20Rng, tx: &mut Transaction, tags: &mut Vec<String>) {
+    let plain: Vec<usize> = (0..tx.input.len()).filter(|&i| !tx.input[i].has_issuance()).collect();
+    if plain.is_empty() { return; }
+    for _ in 0..rng.gen_range(1..=2) {
+        let i = plain[rng.gen_range(0..plain.len())];
+        match rng.gen_range(0..3) {
+            0 => { tx.input[i].witness.amount_rangeproof = Some(rrangeproof(rng)); tags.push("stray:amount_rp".into()); }
+            1 => { tx.input[i].witness.inflation_keys_rangeproof = Some(rrangeproof(rng)); tags.push("stray:keys_rp".into()); }
+            _ => { tx.input[i].witness.amount_rangeproof = Some(rrangeproof(rng)); tx.input[i].witness.inflation_keys_rangeproof = Some(rrangeproof(rng)); tags.push("stray:both_rp".into()); }
+        }
     }
 }
 /// a transaction for the sighash properties: 1..5 inputs (rarely 0), 0..5 outputs, all input/output kinds of txgen
@@ -217,6 +243,7 @@ pub fn rsigtx(rng: &mut ChaCha20Rng, tags: &mut Vec<String>) -> Transaction {
     while tx.input.len() < nin { tx.input.push(rtxin(rng, Feat::default(), tags)); }
     tx.input.truncate(nin);
     if tx.output.len() > 5 { tx.output.truncate(5); }
+    if rng.gen_range(0..3) == 0 { stray_rangeproofs(rng, &mut tx, tags); }
     tx
 }
 pub fn interesting(tx: &Transaction) -> bool {
